@@ -655,6 +655,10 @@ def rule_bounded_closing(ctx):
 
 
 def run(ctx):
+    # what the application configures is what the connection uses: options handed to setProtocolOptions reach the factory attribute of their name
+    from .common import rule_option_setters
+    rule_option_setters(ctx, "C05.10-configured-close-options-reach-the-factory", [('WebSocketServerFactory', 'failByDrop', 'bool'), ('WebSocketServerFactory', 'echoCloseCodeReason', 'bool'), ('WebSocketServerFactory', 'closeHandshakeTimeout', 'num'), ('WebSocketClientFactory', 'failByDrop', 'bool'), ('WebSocketClientFactory', 'echoCloseCodeReason', 'bool'), ('WebSocketClientFactory', 'closeHandshakeTimeout', 'num'), ('WebSocketClientFactory', 'serverConnectionDropTimeout', 'num')],
+                        "the closing handshake is then bounded by another time / follows another policy than the configured one")
     rule_state_writers(ctx)
     rule_close_frame_owner(ctx)
     rule_send_guards(ctx)
